@@ -406,6 +406,66 @@ def roundShapeIsLoft (ns : String × String) : Bool :=
   | some s, some e => decide (canon (loftOf e 1) = s.2.1) && decide (roundChopNodes e.chops = dispNodes s.2.2)
   | _, _ => false
 
+/-! ### joints with any number of branches (hand model; `JointBase.__init__` is uniform in the branch count)
+
+`NJoint(n)`: `n` `CuspCylinder`s = `2n` `CuspSemiCylinder`s (lofts of `HalfDisk`, right half then left half of every
+branch, in the order of `shapes`).  Vertices merge by position: the two halves of a branch share the five points of
+their common diameter on the bottom; on the top (the sheared mitre faces) the five diameter points lie on the
+rotation axis through the centre and are common to *all* halves, the other six points of the right half of branch `i`
+are the mirror images of those of the left half of branch `i+1`. -/
+
+/-- vertex ids of the hand model of a joint with `n` branches: 5 points on the common axis through the centre
+    (ids 0..4: centre, inner right, inner left, outer right, outer left), then per branch `i` 17 bottom points
+    and 6 points of the mitre face between branch `i` and branch `i+1` -/
+def jAxis (j : Nat) : Nat := j
+def jBot (n i j : Nat) : Nat := 5 + 17 * (i % n) + j
+def jMitre (n i j : Nat) : Nat := 5 + 17 * n + 6 * (i % n) + j
+
+/-- bottom point `j` (HalfDisk numbering 0..10) of the right (`s = false`) / left half of branch `i`:
+    the five points on the diameter are shared by the two halves -/
+def jBottom (n i : Nat) (left : Bool) (j : Nat) : Nat :=
+  if !left then jBot n i j
+  else match j with
+    | 0 => jBot n i 0
+    | 1 => jBot n i 5
+    | 5 => jBot n i 1
+    | 6 => jBot n i 10
+    | 10 => jBot n i 6
+    | 2 => jBot n i 11 | 3 => jBot n i 12 | 4 => jBot n i 13
+    | 7 => jBot n i 14 | 8 => jBot n i 15 | _ => jBot n i 16
+
+/-- top point `j` of a half: diameter points lie on the common axis; the others on the mitre face with the next
+    (right half) resp. the previous (left half, mirrored: `j ↦ 6 − j`, `16 − j`) branch -/
+def jTop (n i : Nat) (left : Bool) (j : Nat) : Nat :=
+  match left, j with
+  | _, 0 => jAxis 0
+  | false, 1 => jAxis 1 | false, 5 => jAxis 2 | false, 6 => jAxis 3 | false, 10 => jAxis 4
+  | true, 1 => jAxis 2 | true, 5 => jAxis 1 | true, 6 => jAxis 4 | true, 10 => jAxis 3
+  | false, 2 => jMitre n i 0 | false, 3 => jMitre n i 1 | false, 4 => jMitre n i 2
+  | false, 7 => jMitre n i 3 | false, 8 => jMitre n i 4 | false, _ => jMitre n i 5
+  | true, 4 => jMitre n (i + n - 1) 0 | true, 3 => jMitre n (i + n - 1) 1 | true, 2 => jMitre n (i + n - 1) 2
+  | true, 9 => jMitre n (i + n - 1) 3 | true, 8 => jMitre n (i + n - 1) 4 | true, _ => jMitre n (i + n - 1) 5
+
+def jointBlocks (n : Nat) (quads : List (List Nat)) : Blocking :=
+  (List.range n).flatMap (fun i => [false, true].flatMap (fun left =>
+    quads.map (fun q => q.map (jBottom n i left) ++ q.map (jTop n i left))))
+
+/-- the quad map of `HalfDisk` (the `sketch_class` of `CuspSemiCylinder`) from the regenerated table -/
+def halfQuads : List (List Nat) := match findSketch "HalfDisk" with | some e => e.quads | none => []
+
+/-- chop dispatch of `JointBase`: axial = op 0 axis 2 of every right half; radial = op 2 axis 0 of both halves of
+    branch 0; tangential = ops 2,3,4 axis 1 of the right half of branch 0, op 2 axis 1 of every other right half -/
+def jointChopNodes (n : Nat) : List Nat :=
+  (List.range n).map (fun i => 3 * (12 * i) + 2) ++ [3 * 2 + 0, 3 * 8 + 0] ++ [3 * 2 + 1, 3 * 3 + 1, 3 * 4 + 1] ++
+    (List.range (n - 1)).map (fun i => 3 * (12 * (i + 1) + 2) + 1)
+
+
+/-- the joint model reproduces the assembled probe `NJoint<n>` and its chop dispatch -/
+def jointMatchesProbe (n : Nat) : Bool :=
+  match findShape ("NJoint" ++ toString n) with
+  | some s => decide (canon (jointBlocks n halfQuads) = s.2.1) && decide (jointChopNodes n = dispNodes s.2.2)
+  | none => false
+
 /-! ### line protocol -/
 
 def chunk8 : List Nat → Option Blocking
@@ -443,6 +503,10 @@ def handle (op : String) (args : List String) : Option String :=
       let k ← parseNat? k
       if n < 3 || k == 0 then none else
       some (showBlocking (canon (stackBlocks (ringQuads n) k)) ++ " " ++ showNatList (ringChopNodes n))
+  | "c11.joint", [n] => do
+      let n ← parseNat? n
+      if n < 2 then none else
+      some (showBlocking (canon (jointBlocks n halfQuads)) ++ " " ++ showNatList (jointChopNodes n))
   | "c11.grid", [n, m, k] => do
       let n ← parseNat? n
       let m ← parseNat? m
